@@ -11,6 +11,8 @@ Section Prune.
   Variable gm : string -> string -> bool.
   Variable content : string -> list string.
   Variable hard : bool.
+  Variable defer : bool.
+  Variable orig : bool.
   Variable fs : fsys.
   Variable base : string.
   Variable watches : list string.
@@ -57,8 +59,8 @@ Section Prune.
 
   Lemma enum_children_pinv dir t :
     PInv t -> (forall p, In p (t_skip t) -> is_under p dir = false) ->
-    PInv (enum_children gm hard fs base dir t) /\ (forall p, In p (t_skip t) -> In p (t_skip (enum_children gm hard fs base dir t))) /\
-    (forall p, In p (t_skip (enum_children gm hard fs base dir t)) -> is_under p dir = false \/ exists e, In e (children fs dir) /\ p = fst e).
+    PInv (enum_children gm hard defer fs base dir t) /\ (forall p, In p (t_skip t) -> In p (t_skip (enum_children gm hard defer fs base dir t))) /\
+    (forall p, In p (t_skip (enum_children gm hard defer fs base dir t)) -> is_under p dir = false \/ exists e, In e (children fs dir) /\ p = fst e).
   Proof.
     unfold enum_children. intros I D.
     assert (forall l t0, (forall e, In e l -> In e (children fs dir)) -> PInv t0 ->
@@ -67,7 +69,7 @@ Section Prune.
                  let c := fst e in
                  if must_skip base (t_skip t) c then t else
                  match snd e with
-                 | KDir => if (hard && vcs_dir c) || negb (check_dir gm true (t_filter t) c) then do_skip t c
+                 | KDir => if (hard && vcs_dir c) || (negb defer && negb (check_dir gm true (t_filter t) c)) then do_skip t c
                            else mkT (t_visit t ++ [c]) (t_skip t) (t_filter t) (t_files t)
                  | _ => t
                  end) l t0 in
@@ -78,7 +80,7 @@ Section Prune.
       assert (forall e', In e' r -> In e' (children fs dir)) as Sub' by (intros e' H; apply Sub; right; exact H).
       cbv zeta. destruct (must_skip base (t_skip t0) (fst e)) eqn:MS; [apply IH; assumption|].
       destruct (snd e); try (apply IH; assumption).
-      destruct ((hard && vcs_dir (fst e)) || negb (check_dir gm true (t_filter t0) (fst e))).
+      destruct ((hard && vcs_dir (fst e)) || (negb defer && negb (check_dir gm true (t_filter t0) (fst e)))).
       - destruct (IH (do_skip t0 (fst e)) Sub' (do_skip_pinv t0 (fst e) I0 Ae)) as (X & Y & Z).
         + intros p [<-|Hp]; [right; exists e; split; [apply Sub; left; reflexivity | reflexivity] | apply D0; exact Hp].
         + split; [exact X|]. split; [intros p Hp; apply Y; right; exact Hp | exact Z].
@@ -116,7 +118,7 @@ Section Prune.
   (* one turn of the loop *)
   Lemma step_prune t :
     PInv t ->
-    let t' := step gm content hard fs base watches t in
+    let t' := step gm content hard defer orig fs base watches t in
     PInv t' /\ (forall p, In p (t_skip t) -> In p (t_skip t')) /\
     (forall f, In f (t_files t') -> In f (t_files t) \/ exists d, d_in f = Some d /\ forall p, In p (t_skip t) -> is_under p d = false).
   Proof.
@@ -132,25 +134,25 @@ Section Prune.
             (forall f, In f (t_files t1) -> In f (t_files t) \/ exists d, d_in f = Some d /\ forall p, In p (t_skip t) -> is_under p d = false)) as Base
       by (split; [exact I1|]; split; [intros p Hp; exact Hp | intros f Hf; left; exact Hf]).
     cbv zeta. destruct (must_skip base (t_skip t1) p0); [exact Base|].
-    destruct (negb (check_dir gm true (t_filter t1) p0));
+    destruct (negb (orig && String.eqb p0 base) && negb (check_dir gm true (t_filter t1) p0));
       [split; [apply do_skip_pinv; assumption|]; split; [intros p Hp; right; exact Hp | intros f Hf; left; exact Hf]|].
     destruct (negb (watch_related watches p0));
       [split; [apply do_skip_pinv; assumption|]; split; [intros p Hp; right; exact Hp | intros f Hf; left; exact Hf]|].
     destruct (fs_get fs p0) as [[| |]|]; [|exact Base|exact Base|exact Base].
     destruct (enum_children_pinv p0 t1 I1 NotUnder) as (I2 & Mono & _).
-    destruct (discover_in_shape p0 (enum_children gm hard fs base p0 t1)) as (V3 & S3 & F3).
+    destruct (discover_in_shape p0 (enum_children gm hard defer fs base p0 t1)) as (V3 & S3 & F3).
     split; [|split].
     - destruct I2 as (A2 & B2 & C2). split; [|split]; rewrite ?V3, ?S3; assumption.
     - intros p Hp. rewrite S3. apply Mono. exact Hp.
     - intros f Hf. destruct (F3 f Hf) as [H|H].
-      + left. rewrite (enum_children_files gm hard fs base p0 t1) in H. exact H.
+      + left. rewrite (enum_children_files gm hard defer fs base p0 t1) in H. exact H.
       + right. exists p0. split; [exact H | exact NotUnder].
   Qed.
 
   (* nothing is ever returned from a directory that was skipped earlier, nor from anywhere below it *)
   Theorem pruned_stays_out n : forall t,
     PInv t ->
-    forall f, In f (t_files (run gm content hard n fs base watches t)) ->
+    forall f, In f (t_files (run gm content hard defer orig n fs base watches t)) ->
     In f (t_files t) \/ exists d, d_in f = Some d /\ forall p, In p (t_skip t) -> is_under p d = false.
   Proof.
     induction n as [|n IH]; intros t I f Hf; cbn [run] in Hf; [left; exact Hf|].
@@ -162,7 +164,7 @@ Section Prune.
   Qed.
 
   (* every state reached by the walk has the invariant, starting with from_origin's initial state *)
-  Lemma run_pinv n : forall t, PInv t -> PInv (run gm content hard n fs base watches t).
+  Lemma run_pinv n : forall t, PInv t -> PInv (run gm content hard defer orig n fs base watches t).
   Proof.
     induction n as [|n IH]; intros t I; cbn [run]; [exact I|]. destruct (t_visit t) eqn:V; [exact I|].
     apply IH. destruct (step_prune t I) as (I' & _). exact I'.
@@ -175,26 +177,28 @@ End Prune.
 Section Vcs.
   Variable gm : string -> string -> bool.
   Variable content : string -> list string.
+  Variable defer : bool.
+  Variable orig : bool.
   Variable fs : fsys.
   Variable base : string.
   Variable watches : list string.
 
   Definition NV (t : tourist) : Prop := forall q, In q (t_visit t) -> q = base \/ vcs_dir q = false.
 
-  Lemma enum_children_nv dir t : NV t -> NV (enum_children gm true fs base dir t).
+  Lemma enum_children_nv dir t : NV t -> NV (enum_children gm true defer fs base dir t).
   Proof.
     unfold enum_children. generalize (children fs dir). intro l. revert t. induction l as [|e r IH]; intros t I; cbn [fold_left]; [exact I|].
     apply IH. cbv zeta. destruct (must_skip base (t_skip t) (fst e)); [exact I|]. destruct (snd e); try exact I.
     cbn [andb]. destruct (vcs_dir (fst e)) eqn:Vd; cbn [orb].
     - intros q Hq. unfold do_skip in Hq. cbn [t_visit] in Hq. apply filter_In in Hq. apply I. apply Hq.
-    - destruct (negb (check_dir gm true (t_filter t) (fst e))).
+    - destruct (negb defer && negb (check_dir gm true (t_filter t) (fst e))).
       + intros q Hq. unfold do_skip in Hq. cbn [t_visit] in Hq. apply filter_In in Hq. apply I. apply Hq.
       + intros q Hq. cbn [t_visit] in Hq. apply in_app_or in Hq. destruct Hq as [Hq|[<-|[]]]; [apply I; exact Hq | right; exact Vd].
   Qed.
 
   Lemma step_nv t : NV t ->
-    NV (step gm content true fs base watches t) /\
-    (forall f, In f (t_files (step gm content true fs base watches t)) -> In f (t_files t) \/ exists d, d_in f = Some d /\ (d = base \/ vcs_dir d = false)).
+    NV (step gm content true defer orig fs base watches t) /\
+    (forall f, In f (t_files (step gm content true defer orig fs base watches t)) -> In f (t_files t) \/ exists d, d_in f = Some d /\ (d = base \/ vcs_dir d = false)).
   Proof.
     intro I. unfold step. destruct (rev (t_visit t)) as [|p0 rr] eqn:R; [split; [exact I | intros f Hf; left; exact Hf]|].
     assert (t_visit t = rev rr ++ [p0]) as Vs by (rewrite <- (rev_involutive (t_visit t)), R; reflexivity).
@@ -206,17 +210,17 @@ Section Vcs.
     assert (NV t1 /\ (forall f, In f (t_files t1) -> In f (t_files t) \/ exists d, d_in f = Some d /\ (d = base \/ vcs_dir d = false))) as Base
       by (split; [exact I1 | intros f Hf; left; exact Hf]).
     destruct (must_skip base (t_skip t1) p0); [exact Base|].
-    destruct (negb (check_dir gm true (t_filter t1) p0)); [split; [apply DS; exact I1 | intros f Hf; left; exact Hf]|].
+    destruct (negb (orig && String.eqb p0 base) && negb (check_dir gm true (t_filter t1) p0)); [split; [apply DS; exact I1 | intros f Hf; left; exact Hf]|].
     destruct (negb (watch_related watches p0)); [split; [apply DS; exact I1 | intros f Hf; left; exact Hf]|].
     destruct (fs_get fs p0) as [[| |]|]; [|exact Base|exact Base|exact Base].
-    destruct (discover_in_shape content fs p0 (enum_children gm true fs base p0 t1)) as (V3 & S3 & F3).
+    destruct (discover_in_shape content fs p0 (enum_children gm true defer fs base p0 t1)) as (V3 & S3 & F3).
     split.
     - intros q Hq. rewrite V3 in Hq. exact (enum_children_nv p0 t1 I1 q Hq).
-    - intros f Hf. destruct (F3 f Hf) as [H|H]; [left; rewrite (enum_children_files gm true fs base p0 t1) in H; exact H | right; exists p0; split; [exact H | exact P0]].
+    - intros f Hf. destruct (F3 f Hf) as [H|H]; [left; rewrite (enum_children_files gm true defer fs base p0 t1) in H; exact H | right; exists p0; split; [exact H | exact P0]].
   Qed.
 
   Theorem vcs_dirs_never_entered n : forall t, NV t ->
-    forall f, In f (t_files (run gm content true n fs base watches t)) ->
+    forall f, In f (t_files (run gm content true defer orig n fs base watches t)) ->
     In f (t_files t) \/ exists d, d_in f = Some d /\ (d = base \/ vcs_dir d = false).
   Proof.
     induction n as [|n IH]; intros t I f Hf; cbn [run] in Hf; [left; exact Hf|].
@@ -230,6 +234,6 @@ Definition wfs : fsys := [("/o", KDir); ("/o/test2", KDir); ("/o/test2/.gitignor
   ("/o/test2/test/.hg", KDir); ("/o/test2/test/.hg/.ignore", KFile true)].
 Definition wcontent (p : string) : list string := if String.eqb p "/o/test2/.gitignore" then ["!test"] else ["*.log"].
 Lemma vcs_dir_entered_refuted :
-  map show_dfile (from_origin gm_glob wcontent false wfs "/o" [] [] None) = ["/o/test2/.gitignore|/o/test2|Git"; "/o/test2/test/.hg/.ignore|/o/test2/test/.hg|-"] /\
-  map show_dfile (from_origin gm_glob wcontent true wfs "/o" [] [] None) = ["/o/test2/.gitignore|/o/test2|Git"].
+  map show_dfile (from_origin gm_glob wcontent false false false wfs "/o" [] [] None) = ["/o/test2/.gitignore|/o/test2|Git"; "/o/test2/test/.hg/.ignore|/o/test2/test/.hg|-"] /\
+  map show_dfile (from_origin gm_glob wcontent true false false wfs "/o" [] [] None) = ["/o/test2/.gitignore|/o/test2|Git"].
 Proof. vm_compute. split; reflexivity. Qed.
